@@ -112,6 +112,11 @@ func checkK[K comparable](c Case, mk func(int) K, text func(K) string) (pbt.Info
 	}
 	removedOnce := map[K]bool{}
 	var rePut, reInsert bool
+	// ONE long-lived iterator per container, made before anything happens and rewound
+	// after every step: "Begin resets the iterator to its initial state", so it must
+	// enumerate the CURRENT keys (a Clear or a load that swaps the underlying list
+	// or table away from under it would leave it on the old content)
+	mIt, sIt := m.Iterator(), s.Iterator()
 	observe := func(step int, what string) error {
 		var wantK []K
 		var wantV []int
@@ -152,7 +157,35 @@ func checkK[K comparable](c Case, mk func(int) K, text func(K) string) (pbt.Info
 				return fmt.Errorf("step %d %s: backward iteration (reversed) %v, want %v", step, what, back, wantK)
 			}
 			js, err = m.ToJSON()
+			var long []K
+			if step%2 == 0 {
+				for mIt.Begin(); mIt.Next(); {
+					long = append(long, mIt.Key())
+				}
+			} else {
+				for mIt.End(); mIt.Prev(); {
+					long = append(long, mIt.Key())
+				}
+				slices.Reverse(long)
+			}
+			if !slices.Equal(long, wantK) && len(long)+len(wantK) > 0 {
+				return fmt.Errorf("step %d %s: the long-lived iterator, rewound, enumerates %v, want insertion order %v", step, what, long, wantK)
+			}
 		} else {
+			var long []K
+			if step%2 == 0 {
+				for sIt.Begin(); sIt.Next(); {
+					long = append(long, sIt.Value())
+				}
+			} else {
+				for sIt.End(); sIt.Prev(); {
+					long = append(long, sIt.Value())
+				}
+				slices.Reverse(long)
+			}
+			if !slices.Equal(long, wantK) && len(long)+len(wantK) > 0 {
+				return fmt.Errorf("step %d %s: the long-lived iterator, rewound, enumerates %v, want insertion order %v", step, what, long, wantK)
+			}
 			gotK = s.Values()
 			it := s.Iterator()
 			for it.Next() {
